@@ -151,7 +151,7 @@ impl LinesCodec {
 //@spec
     ensures
         r is Ok,
-        final(dst)@ == old(dst)@ + item.bytes() + seq![10u8],   // [C15] exactly one LF is appended
+        final(dst)@ == old(dst)@ + item.bytes() + seq![10u8],   // [C14,C15] exactly one LF is appended — a function of the item alone, whatever is already buffered
 //@end
 }
 
